@@ -191,3 +191,65 @@ Proof.
     apply IH. apply split_step_escaped. exact H. }
   apply G. cbn. lia.
 Qed.
+
+(** ---- the splitter invents nothing: for EVERY input (encoded by kvarnctl or typed by hand, with
+    unbalanced quotes, dangling backslashes, ...) the tokens, laid end to end, are the input with
+    some characters (separators, quotes, escaping backslashes) left out ----------------------------- *)
+
+Lemma split_step_shape st c :
+  match snd (split_step st c) with
+  | None => current (fst (split_step st c)) = current st
+            \/ current (fst (split_step st c)) = current st ++ [c]
+  | Some t => t = current st /\ current (fst (split_step st c)) = []
+  end.
+Proof.
+  unfold split_step.
+  destruct (N.eqb_spec c c_bslash) as [->|Hb]; cbn [andb].
+  - repeat match goal with
+           | |- context [if ?b then _ else _] => destruct b
+           | |- context [match ?q with QNo => _ | QSingle => _ | QDouble => _ end] => destruct q
+           end; cbn [fst snd current]; auto.
+  - repeat match goal with
+           | |- context [if ?b then _ else _] => destruct b
+           | |- context [match ?q with QNo => _ | QSingle => _ | QDouble => _ end] => destruct q
+           end; cbn [fst snd current]; auto.
+Qed.
+
+Lemma subseq_nil s : subseq [] s.
+Proof. induction s as [|c r IH]; [apply sub_nil | apply sub_skip, IH]. Qed.
+
+Lemma subseq_length x s : subseq x s -> (length x <= length s)%nat.
+Proof. induction 1; cbn [length]; lia. Qed.
+
+Lemma split_from_subseq s : forall st,
+  exists x, concat (split_from st s) = current st ++ x /\ subseq x s.
+Proof.
+  induction s as [|c r IH]; intros st; cbn [split_from].
+  - exists []. split; [|apply sub_nil]. unfold split_end.
+    destruct (current st) as [|a cur] eqn:Ec; cbn [is_empty negb orb].
+    + destruct (closed_quote st); reflexivity.
+    + cbn [concat]. rewrite !app_nil_r. reflexivity.
+  - pose proof (split_step_shape st c) as Hs.
+    destruct (split_step st c) as [st' [t|]]; cbn [fst snd] in Hs.
+    + destruct Hs as [-> Hc]. destruct (IH st') as [x [Hx Hsub]].
+      exists x. split; [|apply sub_skip, Hsub].
+      cbn [concat]. rewrite Hx, Hc. reflexivity.
+    + destruct (IH st') as [x [Hx Hsub]]. destruct Hs as [Hc|Hc].
+      * exists x. split; [|apply sub_skip, Hsub]. rewrite Hx, Hc. reflexivity.
+      * exists (c :: x). split; [|apply sub_take, Hsub].
+        rewrite Hx, Hc, <- app_assoc. reflexivity.
+Qed.
+
+Lemma split_subseq s : subseq (concat (quoted_str_split s)) s.
+Proof.
+  unfold quoted_str_split. destruct (split_from_subseq s split_init) as [x [Hx Hsub]].
+  rewrite Hx. exact Hsub.
+Qed.
+
+Lemma split_no_amplification s : (length (concat (quoted_str_split s)) <= length s)%nat.
+Proof. apply subseq_length, split_subseq. Qed.
+
+(** premises are not needed; the statement is not vacuous: a hand-typed line with an unbalanced quote *)
+Example split_subseq_example :
+  quoted_str_split [112; 32; 34; 97; 32; 92; 98] = [[112]; [97; 32; 98]].
+Proof. vm_compute. reflexivity. Qed.
